@@ -4,6 +4,7 @@ import (
 	"fmt"
 	"math/big"
 	"sort"
+	"strings"
 	"time"
 
 	shared "github.com/aquilax/hranoprovod-cli/v3"
@@ -242,8 +243,13 @@ func runC01(c *core.Ctx) {
 			depthLimit := []int{3, 10}[r.Intn(2)]
 			exact := r.Intn(2) == 0
 			nrec := 2 + r.Intn(11)
+			// every seventh book has names with bytes that are not valid UTF-8 (and siblings that differ only there)
 			o := gen.BookOpts{Recipes: nrec, Basics: 1 + r.Intn(5), MaxDepth: depthLimit - 1, Exact: exact, Wide: i%10 == 0,
-				Names: gen.NameOpts{Unicode: true, Spaces: true, Slash: true, Punct: gen.PunctAll}}
+				Names: gen.NameOpts{Unicode: true, Spaces: true, Slash: true, Punct: gen.PunctAll, Invalid: i%7 == 3}}
+			if o.Names.Invalid {
+				o.Basics += 3
+				c.Count("random_books_with_invalid_utf8_names", 1)
+			}
 			if depthLimit == 10 {
 				o.MaxDepth = 1 + r.Intn(9)
 			}
@@ -409,6 +415,58 @@ func runC01(c *core.Ctx) {
 			c.Sample(map[string]any{"part": "cli", "food.yaml": text, "args": joinArgs(args), "stdout": clip(res.Out, 600)})
 		}
 	})
+	// (4) very deep books under a raised limit: r1 = 2 base, r(i) = 1 r(i-1) + 1 base, so r(i) = (i+1) base;
+	// every row of the export is checked. Limits and depths far beyond what a person types show a cap or a
+	// narrow counter anywhere between the option and the resolver.
+	for _, depth := range []int{1200, 10050} {
+		var sb strings.Builder
+		order := c.Rng("deep", depth).Perm(depth)
+		for _, k := range order {
+			i := k + 1
+			if i == 1 {
+				sb.WriteString("r0000001:\n  base: 2\n")
+			} else {
+				fmt.Fprintf(&sb, "r%07d:\n  r%07d: 1\n  base: 1\n", i, i-1)
+			}
+		}
+		dir := fmt.Sprintf("%s/deep%d", c.Work, depth)
+		files := map[string]string{"food.yaml": sb.String(), "log.yaml": ""}
+		if err := run.WriteFiles(dir, files); err != nil {
+			c.HarnessError(err.Error())
+			break
+		}
+		for vi, via := range []string{"flag", "env"} {
+			args := []string{"--no-color", "-d", "food.yaml", "-l", "log.yaml"}
+			env := map[string]string{}
+			if via == "flag" {
+				args = append(args, "--maxdepth", fmt.Sprint(2*depth))
+			} else {
+				env["HR_MAXDEPTH"] = fmt.Sprint(depth + 2)
+			}
+			args = append(args, "csv", "database-resolved")
+			res := run.Exec(c.HR, args, run.ExecOpts{Dir: dir, Env: env, Timeout: 120 * time.Second})
+			c.Eval(1)
+			c.Count("cli_very_deep_books", 1)
+			c.Nontrivial("deep", fmt.Sprint(depth, vi))
+			d := caseDoc{Files: files, Args: args, Env: env, Note: fmt.Sprintf("chain of %d recipes r(i) = 1 r(i-1) + 1 base declared in shuffled order, limit by %s", depth, via), Observed: map[string]any{"exit": res.Exit, "stderr": clip(res.Serr, 300), "stdout": clip(res.Out, 300)}}
+			if res.Exit != 0 {
+				c.Violation("csv database-resolved|error-on-legal-deep-book", fmt.Sprintf("depth %d under a limit of %s: exit %d %s", depth, args[len(args)-3], res.Exit, clip(res.Serr, 200)), d)
+				continue
+			}
+			rows, err := obs.ParseCSV(res.Out)
+			if err != nil || len(rows) != depth {
+				c.Violation("csv database-resolved|deep-book-rows", fmt.Sprintf("depth %d: %d rows, parse error %v", depth, len(rows), err), d)
+				continue
+			}
+			for k, row := range rows {
+				want := fmt.Sprintf("%d.00", k+2)
+				if len(row) != 3 || row[0] != fmt.Sprintf("r%07d", k+1) || row[1] != "base" || row[2] != want {
+					c.Violation("csv database-resolved|deep-book-value", fmt.Sprintf("depth %d row %d: %q, want r%07d,base,%s", depth, k, row, k+1, want), d)
+					break
+				}
+			}
+		}
+	}
 	jobs, deaths := pool.Stats()
 	c.Count("l2_jobs", jobs)
 	c.Count("l2_process_deaths", deaths)
